@@ -20,6 +20,15 @@ Definition rd {A} (l : list A) (i : nat) : ub A := nth_error l i.      (* checke
    (Core/Iterators/HalfFaceVertexIter.cc:85-99): from-vertices of the halfface's halfedges *)
 Definition hf_vertices (s : mesh) (hf : nat) : list nat := map (he_from s) (halfface s hf).
 
+(* halfedge(h) for a possibly invalid handle: subidx(-1) = 1 and edge_handle(-1) = 0, so -1 reads as halfedge 1
+   (the opposite of edge 0); only the handle -2 = opposite(-1) indexes out of range *)
+Definition he_from_o (s : mesh) (o : option nat) : nat := he_from s (match o with Some h => h | None => 1 end).
+Definition he_to_o (s : mesh) (o : option nat) : nat := he_to s (match o with Some h => h | None => 1 end).
+
+(* halfface(h) for a possibly invalid handle: -1 % 2 != 0 and face_handle(-1) = 0, so -1 reads as halfface 1 *)
+Definition halfface_o (s : mesh) (o : option nat) : list nat :=
+  match o with Some h => halfface s h | None => halfface s 1 end.
+
 (* find_halfedge, TopologyKernel.cc:1934-1946: voh_iter is invalid without vertex incidences *)
 Definition find_halfedge (s : mesh) (a b : nat) : option nat :=
   if vbu s then find (fun h => he_to s h =? b) (out_at s a) else None.
@@ -139,6 +148,19 @@ Definition tet_add_cell_4 (s : mesh) (v0 v1 v2 v3 : nat) (check : bool) : ub (me
 
 (* ------------------------------------------------------------------ get_cell_vertices (486-548) *)
 
+(* the search for the fourth vertex in another halfface of the cell (513-520); reads cell_vhs[0..2] lazily *)
+Fixpoint gcv_scan (vs : list nat) (l : list nat) : ub (list nat) :=
+  match l with
+  | [] => Some []
+  | w :: t =>
+      do a <- rd vs 0;
+      if a =? w then gcv_scan vs t else
+      do b <- rd vs 1;
+      if b =? w then gcv_scan vs t else
+      do c <- rd vs 2;
+      if c =? w then gcv_scan vs t else Some (vs ++ [w])
+  end.
+
 (* get_cell_vertices(HalfFaceHandle): Some [] is the empty vector the C++ returns for a boundary
    halfface or a cell with fewer than four vertices *)
 Definition gcv_hf (s : mesh) (hf : nat) : ub (list nat) :=
@@ -150,18 +172,7 @@ Definition gcv_hf (s : mesh) (hf : nat) : ub (list nat) :=
       let vs := hf_vertices s hf in
       do h0 <- rd hfhs 0;
       do other <- (if negb (hf =? h0) then Some h0 else rd hfhs 1);
-      let fix scan (l : list nat) : ub (list nat) :=
-          match l with
-          | [] => Some []
-          | w :: t =>
-              do a <- rd vs 0;
-              if a =? w then scan t else
-              do b <- rd vs 1;
-              if b =? w then scan t else
-              do c <- rd vs 2;
-              if c =? w then scan t else Some (vs ++ [w])
-          end in
-      scan (hf_vertices s other)
+      gcv_scan vs (hf_vertices s other)
   end.
 
 Definition gcv_c (s : mesh) (c : nat) : ub (list nat) :=
@@ -202,21 +213,22 @@ Definition halfface_opposite_vertex (s : mesh) (hf : nat) : ub (option nat) :=
   end.
 
 (* 555-566 *)
+Fixpoint voh_scan (s : mesh) (v : nat) (l : list nat) : ub (option nat) :=
+  match l with
+  | [] => Some None
+  | hf :: t =>
+      let vhs := hf_vertices s hf in
+      do a <- rd vhs 0;
+      if a =? v then voh_scan s v t else
+      do b <- rd vhs 1;
+      if b =? v then voh_scan s v t else
+      do c <- rd vhs 2;
+      if c =? v then voh_scan s v t else Some (Some hf)
+  end.
+
 Definition vertex_opposite_halfface (s : mesh) (c v : nat) : ub (option nat) :=
   do hfhs <- rd (cells s) c;
-  let fix scan (l : list nat) : ub (option nat) :=
-      match l with
-      | [] => Some None
-      | hf :: t =>
-          let vhs := hf_vertices s hf in
-          do a <- rd vhs 0;
-          if a =? v then scan t else
-          do b <- rd vhs 1;
-          if b =? v then scan t else
-          do c <- rd vhs 2;
-          if c =? v then scan t else Some (Some hf)
-      end in
-  scan hfhs.
+  voh_scan s v hfhs.
 
 (* ------------------------------------------------------------------ TetVertexIter (TetrahedralMeshIterators.cc) *)
 
